@@ -122,11 +122,27 @@ def split_hist(path):
     return res
 
 
-def validate_trace(module, cfg, trace_file, wd, timeout=600, max_findings=3, env=None):
+def split_raw(path):
+    """-> list of (x, [lines]) per execution of a raw (hook-level) trace file"""
+    res, cur, x = [], None, None
+    for l in open(path):
+        if '"k":"reset"' in l[:40]:
+            if cur is not None:
+                res.append((x, cur))
+            x = json.loads(l)["x"]
+            cur = [l]
+        elif cur is not None:
+            cur.append(l)
+    if cur is not None:
+        res.append((x, cur))
+    return res
+
+
+def validate_trace(module, cfg, trace_file, wd, timeout=600, max_findings=3, env=None, splitter=None):
     """Validate a concatenated trace file; on rejection isolate the offending execution(s).
     Returns dict(accepted, rejected=[(x, line_no, record_text)], generated, distinct, runs)."""
     rejected = []
-    execs = split_hist(trace_file)
+    execs = (splitter or split_hist)(trace_file)
     total_gen = total_dist = 0
     runs = 0
     cur_file = trace_file
